@@ -27,9 +27,13 @@ def main():
         if not os.path.exists(marker) and not os.environ.get("VERIF_NO_WARMUP"):
             import subprocess
 
-            subprocess.run([boot.PYTHON, "-m", "vf.warmup"], env=boot.child_env(), cwd=boot.VERIF,
-                           stdout=subprocess.DEVNULL, stderr=subprocess.DEVNULL, timeout=900)
-            open(marker, "w").write("ok\n")
+            try:
+                subprocess.run([boot.PYTHON, "-m", "vf.warmup"], env=boot.child_env(), cwd=boot.VERIF,
+                               stdout=subprocess.DEVNULL, stderr=subprocess.DEVNULL, timeout=1800)
+                open(marker, "w").write("ok\n")
+            except subprocess.TimeoutExpired:
+                # the warm-up only saves compile time; on an overloaded machine the shards compile themselves
+                print("NOTE: numba warm-up did not finish within its wall-clock budget; shards compile on demand")
     except build.BuildError as e:
         print("INCONCLUSIVE property=%s reason=native build failed: %s" % (pid, str(e)[:1500]))
         return 2
@@ -38,4 +42,15 @@ def main():
 
 
 if __name__ == "__main__":
-    sys.exit(main())
+    try:
+        rc = main()
+    except SystemExit:
+        raise
+    except BaseException as e:  # noqa: BLE001 - a harness failure is never a verdict about the repository
+        import traceback
+
+        traceback.print_exc()
+        print("INCONCLUSIVE property=%s reason=harness error: %s: %s" % (
+            (sys.argv[1] if len(sys.argv) > 1 else "?").upper(), type(e).__name__, str(e)[:300]))
+        rc = 2
+    sys.exit(rc)
